@@ -21,7 +21,12 @@ ASSUMPTIONS = ["numeric strings are compared through serde_json's number parser;
 INTS = [0, 1, -1, 2, 2 ** 53 - 1, 2 ** 53, 2 ** 53 + 1, 2 ** 63 - 1, 2 ** 63, 2 ** 63 + 1, 2 ** 64 - 1, -(2 ** 63), -(2 ** 63) + 1, -(2 ** 53) - 1, -(2 ** 53), -(2 ** 63) + 1025, 10, -10]
 FLOATS = [0.0, -0.0, 1.0, -1.0, 0.5, 1.5, 2.0 ** 53, 2.0 ** 53 + 2, 2.0 ** 63, 2.0 ** 64, -(2.0 ** 63), 9.223372036854775e18, 1.8446744073709552e19,
           5e-324, 2.2250738585072014e-308, 1.7976931348623157e308, -1.7976931348623157e308, 1e-7, 0.1, 10.0, -10.0, 9007199254740993.0, -9007199254740992.0, -9.223372036854775e18]
-STRS = ["", "a", "b", "ab", "B", "é", "10", "9", "-1", "1.5", "1e3", "0", "abc", " 1", "1 ", "0x10", "18446744073709551615", "9007199254740993", "1E400"]
+STRS = ["", "a", "b", "ab", "B", "é", "10", "9", "-1", "1.5", "1e3", "0", "abc", " 1", "1 ", "0x10", "18446744073709551615", "9007199254740993", "1E400",
+        # every part of the JSON number grammar a string may use or miss: an explicit plus in the exponent, a negative one, a bare dot,
+        # a leading zero, a leading plus, a sign alone, an exponent without digits
+        "1e+3", "2.5E+1", "1E+0", "1e-3", "+1", "1.", ".5", "01", "1e", "-", "-0", "1e+", "1E-0", "10e-1",
+        # strings whose order by UTF-8 bytes (= by code point, what the property states) differs from their order by UTF-16 code units
+        "\uff5e", "\U0001F600", "\ue000", "\ud7ff", "\U00010000a", "a\uffff", "a\U0001F600"]
 OTHERS = [True, False, None, [], [1], [1, 2], {}, {"a": 1}, {"a": 2}]
 
 
